@@ -112,6 +112,33 @@ def make_messages(dbx, rng, n, box):
             m = dec.decode_basic_string(wire.plain_line(3, d.pgn, src, 255, pb), already_combined=True)
             m.source, m.priority = src, rng.randrange(8)
         msgs.append(m)
+    # often two different definitions of ONE PGN number are sent by the same client (Fusion / Simnet / Seatalk commands):
+    # each must go out in its own layout
+    if rng.random() < 0.6:
+        multi = [ds for ds in gen.sibling_groups([d for d in dbx.defs if d.encodable and d.fixed_layout and d.length and not d.fallback and d.type in ("Single", "Fast")])]
+        if multi:
+            ds = rng.choice(multi)
+            picks = rng.sample(ds, 2)
+            extra = []
+            for j, d in enumerate(picks):
+                for _ in range(10):
+                    p_ = dbx.pack(d, gen.base_raws(d, rng, dbx))
+                    if dbx.select(d.pgn, p_) is d:
+                        break
+                else:
+                    continue
+                src = 40 + j
+                try:
+                    m = dec.decode_basic_string(wire.plain_line(3, d.pgn, src, 255, p_.to_bytes(d.length, "little")), already_combined=True)
+                except Exception:  # noqa: BLE001
+                    continue
+                if m is None or m.id != d.id:
+                    continue
+                m.source, m.priority = src, rng.randrange(8)
+                extra.append(m)
+            if len(extra) == 2:
+                msgs = msgs[:max(0, n - 2)] + extra
+                rng.shuffle(msgs)
     return msgs
 
 
